@@ -260,6 +260,8 @@ func namePool(idx int) []string {
 		return []string{"a", "..a", "..."} // begin with dots without being "." or ".."
 	case 7:
 		return []string{"a", "a.tmp", "b"} // a sibling that looks like a temporary name of another
+	case 2:
+		return []string{"a", "a\\b", "..\\a"} // a backslash is an ordinary character of a name
 	}
 	return []string{"a", "b", "c"}
 }
